@@ -10,6 +10,12 @@ every reachable state
    components handed to the constructor, split products) must give arrays with
    np.shares_memory == False against the source, with writes on either side
    invisible on the other;
+   Split is exercised with the boundary sizes of its window length (round 6): one
+   window spanning the whole record (two spellings), one sample short of it, one and
+   two samples longer, twice the record (refused lengths have no products and are
+   recorded only), a third and a half of the record, and - in shallow states - one
+   sample interval; on SeismicRecording3C.split and on TimeSeries.split of every
+   component.
 3. trim(a, b) for a menu of intervals must keep exactly the samples
    nearest(a)..nearest(b) (exact integer arithmetic on the dyadic floats, see
    hvmc/ref/trim.py) or raise IndexError, leaving the samples alone, for a < 0,
@@ -148,6 +154,43 @@ PATTERNS_ALL = tuple((i, j, k) for i in range(3) for j in range(3) for k in rang
 # recording so built, deeper states the five partition patterns and one trim
 CONSTRUCTED_TRIMS = {"narrow": ("between",), "wide": ("between", "single-sample", "end-just-beyond")}
 WIDE_DEPTH = {"quick": 0, "thorough": 1}
+
+
+# window lengths of split, in sample intervals of the CURRENT record of n samples (m = n - 1 intervals):
+# the two interior lengths and the boundary sizes on both ends of the admissible range
+SPLIT_BOUNDARY = ("whole-record", "whole-record-as-quotient", "whole-minus-one-sample", "one-sample-longer",
+                  "two-samples-longer", "twice-the-record", "one-sample-interval")
+SPLIT_SMALL_DEPTH = 1           # states reached by at most this many operations also get the 1-interval window
+
+
+def split_lengths(n, dt, small=False):
+    """(label, window length in seconds); lengths are float products k*dt, like a user would write.
+
+    third / half: several windows (the lengths the menu uses); whole-record: ONE window spanning the
+    record (k = m), also spelled as the quotient m / fs when fs = 1/dt is an integer to 1e-9;
+    whole-minus-one-sample: one window, one sample short (k = m - 1); one / two samples longer than the
+    record and twice the record (refused, or whatever split makes of it); one-sample-interval: the
+    shortest window, m windows of two samples (shallow states only - m products).  Lengths below one
+    sample interval are left out, equal lengths are judged once under their first label.
+    """
+    m = n - 1
+    out = [("third", float(max(1, m // 3) * dt)), ("half", float(max(1, m // 2) * dt))]
+    cand = [("whole-record", m, None), ("whole-minus-one-sample", m - 1, None), ("one-sample-longer", m + 1, None),
+            ("two-samples-longer", m + 2, None), ("twice-the-record", 2 * m, None)]
+    fs = round(1.0 / dt)
+    if fs >= 1 and abs(fs * dt - 1.0) <= 1e-9:
+        cand.insert(1, ("whole-record-as-quotient", m, float(m / fs)))
+    if small:
+        cand.append(("one-sample-interval", 1, None))
+    for label, k, w in cand:
+        if k >= 1:
+            out.append((label, float(k * dt) if w is None else w))
+    seen, uniq = set(), []
+    for label, w in out:
+        if w not in seen:
+            seen.add(w)
+            uniq.append((label, w))
+    return uniq
 
 
 class Holder:
@@ -519,40 +562,65 @@ class System:
             self._constructor_route(rec, hist, ctx, root, tuple(idx),
                                     CONSTRUCTED_TRIMS["wide" if wide else "narrow"])
 
-        # -- split products
+        # -- split products: every window length of the boundary alphabet (see split_lengths)
         n, dt = rec.ns.n_samples, rec.ns.dt_in_seconds
-        for w in sorted({self._split_length(n, dt), float(max(1, (n - 1) // 2) * dt)}):
-            src = private_copy(rec, deep_meta=False)
-            snap = samples(src)
-            ctx.count("transitions")
-            try:
-                prods = src.split(w)
-            except Exception as e:      # noqa: BLE001 - too short to split: no products, nothing to judge
-                ctx.count("split_refused")
-                ctx.outcome(("split", "raised", type(e).__name__))
-                continue
+        for label, w in split_lengths(n, dt, small=len(hist) <= SPLIT_SMALL_DEPTH):
+            self._split_route(rec, hist, ctx, root, label, w)
+
+    def _split_route(self, rec, hist, ctx, root, label, w):
+        """Products of split(w) - however many there are - share no sample storage with the split object.
+
+        Refusal is not judged (the statement does not say which lengths split must refuse); a refused
+        split has no products and is recorded as an outcome only.
+        """
+        n = rec.ns.n_samples
+        extra = dict(window_length=w, window_class=label, n_samples=n, dt=rec.ns.dt_in_seconds,
+                     window_length_in_sample_intervals=w / rec.ns.dt_in_seconds)
+        src = private_copy(rec, deep_meta=False)
+        snap = samples(src)
+        ctx.count("transitions")
+        ctx.count(f"split_calls:{label}")
+        try:
+            prods = src.split(w)
+        except Exception as e:      # noqa: BLE001 - no products, nothing to judge
+            ctx.count("split_refused")
+            ctx.count(f"split_refused:{label}")
+            self._outcome(ctx, ("split", label, "raised", type(e).__name__))
+            if not all(bitwise_equal(getattr(src, c).amplitude, s) for c, s in zip(COMPONENTS, snap)):
+                ctx.count("info_refused_split_changed_source_samples")      # not part of the statement
+        else:
             ctx.count("copy_routes_exercised")
             ctx.count("split_products_checked", len(prods))
-            ctx.outcome(("split", len(prods), prods[0].ns.n_samples if prods else 0))
+            ctx.count(f"split_products_checked:{label}", len(prods))
+            n0 = prods[0].ns.n_samples if prods else 0
+            if len(prods) == 1 and n0 == n:
+                ctx.count("split_single_product_spanning_the_record")
+            ctx.outcome(("split", label, len(prods), n0 if n0 in (n, n - 1) else "shorter"))
             if not all(bitwise_equal(getattr(src, c).amplitude, s) for c, s in zip(COMPONENTS, snap)):
                 ctx.count("info_split_changed_source_samples")      # not part of the statement
             pairs = []
             for k, p in enumerate(prods):
                 pairs += self._all_pairs(src, p, tag=f"window[{k}] ")
-            self._independent(ctx, root, "split", hist, pairs, extra=dict(window_length=w))
-            # the component-level split used by it is a splitting route of its own
-            ts = copy.deepcopy(rec.vt)
+            self._independent(ctx, root, "split", hist, pairs, extra=extra)
+        # the component-level split used by it is a splitting route of its own
+        for c in (COMPONENTS if label in SPLIT_BOUNDARY else ("vt",)):
+            ts = copy.deepcopy(getattr(rec, c))
             ctx.count("transitions")
             try:
                 tprods = ts.split(w)
-            except Exception:           # noqa: BLE001
+            except Exception as e:      # noqa: BLE001
                 ctx.count("split_refused")
+                ctx.count(f"timeseries_split_refused:{label}")
+                self._outcome(ctx, ("TimeSeries.split", label, "raised", type(e).__name__))
                 continue
             ctx.count("copy_routes_exercised")
             ctx.count("split_products_checked", len(tprods))
+            ctx.count(f"timeseries_split_products_checked:{label}", len(tprods))
+            if len(tprods) == 1 and tprods[0].n_samples == n:
+                ctx.count("timeseries_split_single_product_spanning_the_record")
             self._independent(ctx, root, "TimeSeries.split", hist,
                               [(f"source / window[{k}]", (lambda o=ts: o.amplitude), (lambda o=p: o.amplitude))
-                               for k, p in enumerate(tprods)], extra=dict(window_length=w))
+                               for k, p in enumerate(tprods)], extra=dict(component=c, **extra))
 
     def _constructor_route(self, rec, hist, ctx, root, idx, trims):
         route = "constructor" if len(set(idx)) == 3 else "constructor-one-series-for-several-components"
@@ -885,7 +953,13 @@ def finalize(ctx, tier):
             "wrong_variant_end_exclusive_differs",
             "constructor_repeated_series_cases", "constructed_recording_trims", "sibling_pairs_checked",
             "sibling_edits_checked", "pair_cases_same_length_other_time_step",
-            "pair_cases_same_length_other_expectation"]
+            "pair_cases_same_length_other_expectation",
+            "split_single_product_spanning_the_record", "timeseries_split_single_product_spanning_the_record",
+            "split_products_checked:whole-record", "timeseries_split_products_checked:whole-record",
+            "split_products_checked:whole-minus-one-sample",
+            "timeseries_split_products_checked:whole-minus-one-sample",
+            "split_refused:two-samples-longer", "timeseries_split_refused:two-samples-longer",
+            "split_refused:twice-the-record", "split_products_checked:one-sample-interval"]
     for k in need:
         if not c.get(k, 0):
             ctx.violation(f"C18:vacuous:{k}", None, explanation=f"counter {k} is zero - the oracle "
@@ -901,10 +975,17 @@ def describe(tier):
              "Butterworth filters, 2 detrends, 3 Tukey widths, 3 re-orientations, split -> window 0}, "
              "states deduplicated on (sample bytes, dt, orientation, JSON-normalised meta); in every state: "
              "save->load, 4 copy routes (copy constructor, TimeSeries copy constructor x3, constructor, "
-             "split with 2 window lengths) with shares_memory and writes on both sides, and 13 trim "
+             "split with the window-length alphabet below) with shares_memory and writes on both sides, and 13 trim "
              "intervals on SeismicRecording3C and TimeSeries against exact integer arithmetic; a case "
              "is non-trivial/distinct by (L, dt, orientation, first operation); five more roots give the deployed orientation as np.int64/np.int32/np.float32/np.float64/0-d array; the time vectors returned by time() are shifted in place by the harness between operations; family long: 13 + 4 trim intervals on TimeSeries (5 of them also on SeismicRecording3C) of 400001 samples at 0.01 s, 270000 at 1/75 s (and 131072 at 0.005 s, thorough); constructor route: in every state the three series are handed to the constructor in the five partition patterns (a,b,c), (a,a,c), (a,b,a), (a,b,b), (a,a,a) - one TimeSeries object for two or three components - and, in states reached by at most 0 (quick) / 1 (thorough) operations, in all 27 index triples; judged: stored samples equal the given ones, no stored component shares storage with a given series or with another stored component, an edit of one stored component leaves the other two alone, and trim of the recording so built (1 interval; 3 in shallow states) keeps nearest(a)..nearest(b) in every component; the same sibling oracle holds in every reachable state; further roots are recordings built from one series for several components (2 patterns at L=9 quick; 4 at L=9 and (a,a,a) at L=64 thorough), and the harness' private copies keep components that are one object one object; family pair: for every ordered pair of configurations (L, dt) from L in {9,64,65} (thorough also 201) x dt in {0.01, 0.02, 1/75, 0.005}, every pair of kinds (TimeSeries, SeismicRecording3C) and every one of the 13 intervals of either record (absolute seconds), a fresh first object is trimmed and directly afterwards a fresh second object with other samples is trimmed with the identical arguments; both are judged against the exact reference for their own (L, dt) (same length / other time step, same time step / other length, refused first / accepted second and vice versa are all inside)",
-        bounds=dict(depth="2 quick; 3 thorough (every first operation is a root explored 2 further)",
+        bounds=dict(split_window_lengths="in every state, on SeismicRecording3C.split and TimeSeries.split (all three "
+                             "components for the boundary sizes, vt otherwise), with m = n_samples - 1: m//3 and m//2 "
+                             "intervals (several windows), m (ONE window spanning the record; as m*dt and as m/fs), "
+                             "m - 1 (one window, one sample short), m + 1, m + 2 and 2m (longer than the record: "
+                             "refused or not, products judged if any), and 1 interval (m two-sample windows) in states "
+                             "reached by at most 1 operation; every product against every component of the split "
+                             "object: shares_memory and writes on both sides",
+                    depth="2 quick; 3 thorough (every first operation is a root explored 2 further)",
                     menu=20, trim_intervals_judged_per_state=13,
                     constructor_patterns_per_state="5; 27 in states within 0 (quick) / 1 (thorough) operations",
                     pair_family="ordered pairs of 12 (quick) / 16 (thorough) configurations x 4 kind pairs x "
@@ -924,6 +1005,9 @@ def describe(tier):
                      "names source and copy only, but per-component trim (keeps nearest(a)..nearest(b) in every "
                      "component) cannot hold when two stored components are one storage; the trim oracle on the "
                      "constructed recording judges the same thing through the statement's own clause",
+                     "split: which window lengths are refused is not judged (the statement only speaks of the "
+                     "products); a length that is accepted is judged through its products, whatever their number; "
+                     "products are compared with the split object only, not with each other",
                      "carried state between objects is searched with sequences of two trims only (first object, "
                      "then second object, identical arguments); longer interleavings across objects are not "
                      "enumerated"])
